@@ -10,9 +10,10 @@ use x86_64::structures::paging::mapper::{
     CleanUp, FlagUpdateError, MapToError, MappedFrame, MapperFlush, TranslateError, TranslateResult, UnmapError,
 };
 use x86_64::structures::paging::page::PageRangeInclusive;
+use crate::softmmu::{self, SoftMmu};
 use x86_64::structures::paging::{
     FrameAllocator, FrameDeallocator, MappedPageTable, Mapper, OffsetPageTable, Page, PageSize, PageTable,
-    PageTableFlags, PhysFrame, Size1GiB, Size2MiB, Size4KiB, Translate,
+    PageTableFlags, PageTableIndex, PhysFrame, RecursivePageTable, Size1GiB, Size2MiB, Size4KiB, Translate,
 };
 use x86_64::{PhysAddr, VirtAddr};
 
@@ -146,7 +147,9 @@ where
 
 fn tp<S: PageSize, M: Mapper<S>>(m: &M, va: u64) -> String {
     let page = Page::<S>::containing_address(VirtAddr::new(va));
-    match guard(|| m.translate_page(page)) {
+    let r = guard(|| m.translate_page(page));
+    softmmu::end_call(1);
+    match r {
         None => "9 0".into(),
         Some(Ok(f)) => format!("0 {}", f.start_address().as_u64()),
         Some(Err(TranslateError::PageNotMapped)) => "4 0".into(),
@@ -157,7 +160,9 @@ fn tp<S: PageSize, M: Mapper<S>>(m: &M, va: u64) -> String {
 
 fn probe<M: AllMapper>(m: &M, va: u64) -> String {
     let v = VirtAddr::new(va);
-    let t = match guard(|| m.translate(v)) {
+    let tr = guard(|| m.translate(v));
+    softmmu::end_call(1);
+    let t = match tr {
         None => "9 0 0 0 0".to_string(),
         Some(TranslateResult::NotMapped) => "0 0 0 0 0".into(),
         Some(TranslateResult::InvalidFrameAddress(a)) => format!("2 {} 0 0 0", a.as_u64()),
@@ -170,7 +175,9 @@ fn probe<M: AllMapper>(m: &M, va: u64) -> String {
             format!("1 {} {} {} {}", fa, sz, offset, flags.bits())
         }
     };
-    let ta = match guard(|| m.translate_addr(v)) {
+    let tar = guard(|| m.translate_addr(v));
+    softmmu::end_call(1);
+    let ta = match tar {
         None => "9 0".to_string(),
         Some(None) => "0 0".into(),
         Some(Some(pa)) => format!("1 {}", pa.as_u64()),
@@ -207,6 +214,8 @@ pub fn observe<M: AllMapper>(
         },
     })
     .unwrap_or_else(|| "panic".to_string());
+    // software MMU (recursive mapper only): drop every page faulted in by the call ("TLB flush")
+    softmmu::end_call(0);
     let changes = diff();
     let mut s = format!("R {} A {} D {}", res, alloc.used, dealloc.0.len());
     for f in &dealloc.0 {
@@ -443,16 +452,228 @@ pub fn pool_layout(rng: &mut Rng, n: usize, contiguous_base: Option<u64>) -> Vec
     v
 }
 
+#[derive(Clone, Copy, PartialEq, Debug)]
 pub enum MapperKind {
     Mapped,
     Offset,
+    /// `RecursivePageTable` with this recursive index, through the software MMU
+    Recursive(u64),
+}
+
+impl MapperKind {
+    pub fn code(self) -> u64 {
+        match self {
+            MapperKind::Mapped => 0,
+            MapperKind::Offset => 1,
+            MapperKind::Recursive(_) => 2,
+        }
+    }
+    pub fn rec_index(self) -> Option<u64> {
+        match self {
+            MapperKind::Recursive(r) => Some(r),
+            _ => None,
+        }
+    }
+}
+
+/// Frames that are page tables of the hierarchy rooted at pool slot 0, read from the pool
+/// (present, non-huge entries at levels 4..2; the harness' own view, the driver recomputes it).
+pub fn table_frames(pool: &Pool, rec: Option<u64>) -> std::collections::HashSet<u64> {
+    let mut set = std::collections::HashSet::new();
+    set.insert(pool.phys[0]);
+    let mut level_tables = vec![0usize];
+    for level in (2..=4).rev() {
+        let mut next = Vec::new();
+        for &slot in &level_tables {
+            for i in 0..512usize {
+                if level == 4 && rec == Some(i as u64) {
+                    continue;
+                }
+                let e = pool.peek(slot, i);
+                if e & 1 != 0 && e & 0x80 == 0 {
+                    let f = e & 0x000f_ffff_ffff_f000;
+                    if set.insert(f) {
+                        if let Some(&k) = pool.slot_of.get(&f) {
+                            next.push(k);
+                        }
+                    }
+                }
+            }
+        }
+        level_tables = next;
+    }
+    set
+}
+
+/// One history's execution environment: the pool, the mapper kind and (recursive kind) the
+/// installed software MMU with the P4 frame mapped at its recursive address.
+pub struct Env {
+    pub kind: MapperKind,
+    pub pool: Pool,
+    pub foreign: usize,
+    pub base_phys: u64,
+    pub mmu: Option<SoftMmu>,
+}
+
+impl Env {
+    /// Build the pool (P4 = slot 0, zeroed) and emit `mh_begin`. For the recursive kind the P4
+    /// frame gets `P4[R] = p4 | PRESENT | WRITABLE` (reported to the driver as an initial word), is
+    /// mapped at (R,R,R,R), and the SIGSEGV handler is installed with CR3 = p4.
+    pub fn begin(out: &mut Out, kind: MapperKind, phys: Vec<u64>, seed: u64, base_phys: u64, mask: u64) -> Env {
+        let npool = phys.len();
+        let mut pool = Pool::new(phys, seed);
+        pool.zero_frame(0);
+        let p4_phys = pool.phys[0];
+        let foreign = npool - 1;
+        let mut mmu = None;
+        let mut args = vec![mask, kind.code(), kind.rec_index().unwrap_or(0), p4_phys, seed];
+        if let MapperKind::Recursive(r) = kind {
+            let e = p4_phys | 3;
+            pool.poke(0, r as usize, e);
+            args.extend_from_slice(&[1, p4_phys, r, e]);
+            let mut m = SoftMmu::install(&pool, foreign, r, p4_phys);
+            assert!(m.map_fixed(0, softmmu::recursive_p4_addr(r)), "cannot map the P4 frame at its recursive address");
+            mmu = Some(m);
+        } else {
+            args.push(0);
+        }
+        out.emit("mh_begin", &args, "-", false);
+        Env { kind, pool, foreign, base_phys, mmu }
+    }
+
+    /// Run one operation and emit `mh_op` (and `mh_mmu` for the recursive kind). Returns the observation.
+    pub fn step(&mut self, out: &mut Out, op: &Op, answers: &[Option<u64>], probes: &[u64]) -> (String, usize) {
+        let mut alloc = ScriptAlloc { answers: answers.to_vec(), used: 0 };
+        let pre_tables = if self.mmu.is_some() { table_frames(&self.pool, self.kind.rec_index()) } else { Default::default() };
+        let poolptr: *mut Pool = &mut self.pool;
+        let mut diff = || unsafe { (*poolptr).diff() };
+        let obs = match self.kind {
+            MapperKind::Mapped => {
+                let p4ref: &mut PageTable = unsafe { &mut *self.pool.frame_ptr(0) };
+                let mapping = PoolMapping { base: self.pool.base, slot_of: self.pool.slot_of.clone(), foreign_slot: self.foreign };
+                let mut m = unsafe { MappedPageTable::new(p4ref, mapping) };
+                observe(&mut m, op, &mut alloc, probes, &mut diff)
+            }
+            MapperKind::Offset => {
+                let p4ref: &mut PageTable = unsafe { &mut *self.pool.frame_ptr(0) };
+                let offset = VirtAddr::new(self.pool.base as u64 - self.base_phys);
+                let mut m = unsafe { OffsetPageTable::new(p4ref, offset) };
+                observe(&mut m, op, &mut alloc, probes, &mut diff)
+            }
+            MapperKind::Recursive(r) => {
+                // `RecursivePageTable::new` reads CR3 (checked in C20); the histories use `new_unchecked`
+                let p4ref: &mut PageTable = unsafe { &mut *(softmmu::recursive_p4_addr(r) as *mut PageTable) };
+                let mut m = unsafe { RecursivePageTable::new_unchecked(p4ref, PageTableIndex::new(r as u16)) };
+                observe(&mut m, op, &mut alloc, probes, &mut diff)
+            }
+        };
+        let mut args = vec![op.opcode, op.szc, op.page, op.frame, op.flags, op.pflags, answers.len() as u64];
+        for a in answers {
+            args.push(a.unwrap_or(0));
+        }
+        args.push(probes.len() as u64);
+        args.extend_from_slice(probes);
+        out.emit("mh_op", &args, &obs, true);
+        if self.mmu.is_some() {
+            // the software-MMU log of this operation: (virtual page, frame reached, harness' view of
+            // "is a page table of the hierarchy before or after the call", walk kind + 4 * phase)
+            let post_tables = table_frames(&self.pool, self.kind.rec_index());
+            let log = softmmu::take_log();
+            let mut seen = std::collections::HashSet::new();
+            let mut margs: Vec<u64> = vec![0];
+            let mut n = 0u64;
+            for f in &log {
+                if !seen.insert((f.vpage, f.frame, f.kind, f.phase)) {
+                    continue;
+                }
+                let is_table = f.kind == softmmu::KIND_TABLE_WALK && (pre_tables.contains(&f.frame) || post_tables.contains(&f.frame));
+                margs.extend_from_slice(&[f.vpage, f.frame, is_table as u64, f.kind as u64 + 4 * f.phase as u64]);
+                n += 1;
+                out.input_class(match (f.kind, is_table) {
+                    (softmmu::KIND_TABLE_WALK, true) => "mmu:reached-table",
+                    (softmmu::KIND_TABLE_WALK, false) => "mmu:reached-non-table-frame",
+                    (softmmu::KIND_HUGE, _) => "mmu:reached-huge-data-frame",
+                    _ => "mmu:not-present",
+                });
+            }
+            margs[0] = n;
+            out.emit("mh_mmu", &margs, "-", n != 0);
+        }
+        (obs, alloc.used)
+    }
+}
+
+fn p4_index(a: u64) -> u64 {
+    (a >> 39) & 511
+}
+
+/// Does the operation name a page under the recursive slot (outside the mapper's contract)?
+fn op_touches_slot(op: &Op, r: u64) -> bool {
+    match op.opcode {
+        9 | 10 => false, // clean-up ranges may span the slot: the code skips it
+        2 => p4_index(op.frame) == r || p4_index(op.page) == r,
+        _ => p4_index(op.page) == r,
+    }
+}
+
+/// Recursive indices tried for the recursive kind, in order of preference after the random draw.
+/// 255 cannot work in a Linux process (the page (255,255,255,255) is the last user page, which the
+/// kernel never maps, and the stack lives in that slot); 254 usually holds the shared libraries.
+const REC_CANDIDATES: [u64; 5] = [1, 2, 100, 254, 255];
+const REC_FALLBACKS: [u64; 4] = [200, 128, 3, 253];
+
+pub fn pick_rec_index(out: &mut Out, rng: &mut Rng) -> u64 {
+    let first = rng.pick(&REC_CANDIDATES);
+    if softmmu::slot_usable(first) {
+        return first;
+    }
+    out.input_class(&format!("recursive-index-{}-not-usable-in-this-process", first));
+    for &r in REC_FALLBACKS.iter().chain(REC_CANDIDATES.iter()) {
+        if softmmu::slot_usable(r) {
+            return r;
+        }
+    }
+    panic!("no usable recursive index");
+}
+
+fn op_name(opcode: u64) -> &'static str {
+    match opcode {
+        0 => "map_to_with_table_flags",
+        1 => "map_to",
+        2 => "identity_map",
+        3 => "unmap",
+        4 => "update_flags",
+        5 => "set_flags_p4",
+        6 => "set_flags_p3",
+        7 => "set_flags_p2",
+        8 => "translate_page",
+        9 => "clean_up",
+        _ => "clean_up_addr_range",
+    }
 }
 
 pub fn run_histories(out: &mut Out, rng: &mut Rng, tier: Tier, mask: u64) {
     let nhist = tier.n(120, 3000);
     let nops = tier.n(60, 300);
+    // VERIF_MAPPER_KINDS=<codes, e.g. "2" or "0,1">: restrict the generated histories to these mapper kinds
+    // (focused runs; the default is all three, one third each)
+    let kinds: Vec<u64> = std::env::var("VERIF_MAPPER_KINDS")
+        .ok()
+        .map(|v| v.split(',').filter_map(|x| x.trim().parse().ok()).collect())
+        .unwrap_or_else(|| vec![0, 1, 2]);
     for h in 0..nhist {
-        let kind = if h % 2 == 0 { MapperKind::Mapped } else { MapperKind::Offset };
+        let kind = match h % 3 {
+            0 => MapperKind::Mapped,
+            1 => MapperKind::Offset,
+            _ => MapperKind::Recursive(0),
+        };
+        if !kinds.contains(&kind.code()) {
+            continue;
+        }
+        let kind = match kind {
+            MapperKind::Recursive(_) => MapperKind::Recursive(pick_rec_index(out, rng)),
+            k => k,
+        };
         let npool = 96usize;
         let seed = rng.next();
         let base_phys = match rng.below(3) {
@@ -461,25 +682,35 @@ pub fn run_histories(out: &mut Out, rng: &mut Rng, tier: Tier, mask: u64) {
             _ => 0x1_0000_1000,
         };
         let phys = match kind {
-            MapperKind::Mapped => pool_layout(rng, npool, None),
             MapperKind::Offset => pool_layout(rng, npool, Some(base_phys)),
+            _ => pool_layout(rng, npool, None),
         };
-        let mut pool = Pool::new(phys.clone(), seed);
-        pool.zero_frame(0);
-        let p4_phys = phys[0];
         // the last 8 slots before the foreign page are canary data frames: never handed to the allocator
-        let foreign = npool - 1;
         let canaries: Vec<u64> = phys[npool - 9..npool - 1].to_vec();
         let mut free: Vec<u64> = phys[1..npool - 9].to_vec();
-        let uni = Universe { p4_indices: vec![0, 1, 255, 256, 511] };
+        // pages under the recursive slot are outside the recursive mapper's contract
+        let mut p4s: Vec<u64> = vec![0, 1, 255, 256, 511];
+        if let MapperKind::Recursive(r) = kind {
+            p4s.retain(|&i| i != r);
+            for n in [r.wrapping_sub(1) & 511, (r + 1) & 511] {
+                if !p4s.contains(&n) {
+                    p4s.push(n); // neighbours of the recursive slot
+                }
+            }
+            out.input_class(&format!("recursive-index:{}", r));
+        }
+        let uni = Universe { p4_indices: p4s };
         let mut hist = History { pages: Vec::new() };
-        let kind_code = match kind {
-            MapperKind::Mapped => 0,
-            MapperKind::Offset => 1,
-        };
-        out.emit("mh_begin", &[mask, kind_code, 0, p4_phys, seed, 0], "-", false);
+        let mut env = Env::begin(out, kind, phys, seed, base_phys, mask);
+        out.input_class(&format!("history:{:?}", match kind { MapperKind::Recursive(_) => MapperKind::Recursive(0), k => k }));
         for _ in 0..nops {
-            let op = gen_op(rng, &uni, &mut hist, &canaries);
+            let mut op = gen_op(rng, &uni, &mut hist, &canaries);
+            if let MapperKind::Recursive(r) = kind {
+                while op_touches_slot(&op, r) {
+                    op = gen_op(rng, &uni, &mut hist, &canaries);
+                }
+                hist.pages.retain(|&(p, _)| p4_index(p) != r);
+            }
             // allocator script: up to 3 answers, fresh frames in random order, failures injected
             let mut answers: Vec<Option<u64>> = Vec::new();
             let fail_at = if rng.chance(1, 6) { rng.below(4) } else { 99 };
@@ -491,25 +722,13 @@ pub fn run_histories(out: &mut Out, rng: &mut Rng, tier: Tier, mask: u64) {
                     answers.push(Some(free.swap_remove(idx)));
                 }
             }
-            let probes = gen_probes(rng, &op, &hist);
-            let mut alloc = ScriptAlloc { answers: answers.clone(), used: 0 };
-            let p4ref: &mut PageTable = unsafe { &mut *pool.frame_ptr(0) };
-            let poolptr: *mut Pool = &mut pool;
-            let mut diff = || unsafe { (*poolptr).diff() };
-            let obs = match kind {
-                MapperKind::Mapped => {
-                    let mapping = PoolMapping { base: pool.base, slot_of: pool.slot_of.clone(), foreign_slot: foreign };
-                    let mut m = unsafe { MappedPageTable::new(p4ref, mapping) };
-                    observe(&mut m, &op, &mut alloc, &probes, &mut diff)
-                }
-                MapperKind::Offset => {
-                    let offset = VirtAddr::new(pool.base as u64 - base_phys);
-                    let mut m = unsafe { OffsetPageTable::new(p4ref, offset) };
-                    observe(&mut m, &op, &mut alloc, &probes, &mut diff)
-                }
-            };
+            let mut probes = gen_probes(rng, &op, &hist);
+            if let MapperKind::Recursive(r) = kind {
+                probes.retain(|&va| p4_index(va) != r);
+            }
+            let (obs, used) = env.step(out, &op, &answers, &probes);
             // unused answers go back to the free list; deallocated frames are recycled
-            for a in answers.iter().skip(alloc.used.min(3)).flatten() {
+            for a in answers.iter().skip(used.min(3)).flatten() {
                 free.push(*a);
             }
             let toks: Vec<&str> = obs.split(' ').collect();
@@ -523,36 +742,21 @@ pub fn run_histories(out: &mut Out, rng: &mut Rng, tier: Tier, mask: u64) {
                     }
                 }
             }
-            let mut args = vec![op.opcode, op.szc, op.page, op.frame, op.flags, op.pflags, 3];
-            for a in &answers {
-                args.push(a.unwrap_or(0));
-            }
-            args.push(probes.len() as u64);
-            args.extend_from_slice(&probes);
-            out.input_class(match op.opcode {
-                0 => "map_to_with_table_flags",
-                1 => "map_to",
-                2 => "identity_map",
-                3 => "unmap",
-                4 => "update_flags",
-                5 => "set_flags_p4",
-                6 => "set_flags_p3",
-                7 => "set_flags_p2",
-                8 => "translate_page",
-                9 => "clean_up",
-                _ => "clean_up_addr_range",
-            });
+            out.input_class(op_name(op.opcode));
             let restoks: Vec<&str> = obs.split(' ').take(3).collect();
             let rc = if restoks[1] == "err" { format!("err{}", restoks[2]) } else { restoks[1].to_string() };
             out.input_class(&format!("result:op{}:sz{}:{}", op.opcode, op.szc, rc));
-            out.emit("mh_op", &args, &obs, true);
+        }
+        if let Some(m) = &env.mmu {
+            out.notes.insert("softmmu_faults_total".into(), format!("{}", m.faults_total()));
         }
     }
 }
 
 /// Replay hand-written histories (`corpus/<id>/*.ops`): minimised past failures and witnesses of
 /// the defects recorded in KNOWN_FINDINGS.txt. Format, one item per line:
-///   begin <kind: 0 mapped | 1 offset>
+///   begin <kind: 0 mapped | 1 offset | 2 recursive> [<recursive index R> [<physical base of the pool>]]
+///      (the pool is 64 contiguous frames from the base, default 0x4000_0000; slot 0 = P4, slot 63 = foreign page)
 ///   op <opcode> <szcode> <page> <frame> <flags> <pflags> <s1> <s2> <s3>   (allocator answers as pool
 ///      slot numbers, 0 = None; numbers may be written in hex with 0x)
 pub fn run_corpus(out: &mut Out, path: &str, mask: u64) {
@@ -569,11 +773,10 @@ pub fn run_corpus(out: &mut Out, path: &str, mask: u64) {
     };
     let mut rng = Rng::new(7);
     let npool = 64usize;
-    let base_phys = 0x4000_0000u64;
-    let phys = pool_layout(&mut rng, npool, Some(base_phys));
+    let mut base_phys = 0x4000_0000u64;
+    let mut phys = pool_layout(&mut rng, npool, Some(base_phys));
     let seed = 12345u64;
-    let mut pool: Option<Pool> = None;
-    let mut kind = 0u64;
+    let mut env: Option<Env> = None;
     let mut hist = History { pages: Vec::new() };
     for line in text.lines() {
         let line = line.split('#').next().unwrap().trim();
@@ -583,40 +786,36 @@ pub fn run_corpus(out: &mut Out, path: &str, mask: u64) {
         let t: Vec<&str> = line.split_whitespace().collect();
         match t[0] {
             "begin" => {
-                kind = num(t[1]);
-                let mut p = Pool::new(phys.clone(), seed);
-                p.zero_frame(0);
-                pool = Some(p);
+                drop(env.take()); // drops the previous pool / software MMU first
+                let kind = match num(t[1]) {
+                    0 => MapperKind::Mapped,
+                    1 => MapperKind::Offset,
+                    _ => {
+                        let r = t.get(2).map(|x| num(x)).unwrap_or(1);
+                        if !softmmu::slot_usable(r) {
+                            out.input_class(&format!("corpus-recursive-index-{}-not-usable", r));
+                            MapperKind::Recursive(REC_FALLBACKS.iter().copied().find(|&x| softmmu::slot_usable(x)).expect("no usable recursive index"))
+                        } else {
+                            MapperKind::Recursive(r)
+                        }
+                    }
+                };
                 hist = History { pages: Vec::new() };
-                out.emit("mh_begin", &[mask, kind, 0, phys[0], seed, 0], "-", false);
+                base_phys = t.get(3).map(|x| num(x)).unwrap_or(0x4000_0000);
+                phys = pool_layout(&mut rng, npool, Some(base_phys));
+                env = Some(Env::begin(out, kind, phys.clone(), seed, base_phys, mask));
             }
             "op" => {
-                let pool = pool.as_mut().expect("op before begin");
+                let env = env.as_mut().expect("op before begin");
                 let op = Op { opcode: num(t[1]), szc: num(t[2]), page: num(t[3]), frame: num(t[4]), flags: num(t[5]), pflags: num(t[6]) };
                 let answers: Vec<Option<u64>> =
                     (7..10).map(|k| t.get(k).map(|x| num(x)).filter(|&s| s != 0).map(|s| phys[s as usize])).collect();
                 hist.pages.push((if op.opcode == 2 { op.frame } else { op.page }, op.szc));
-                let probes = gen_probes(&mut rng, &op, &hist);
-                let mut alloc = ScriptAlloc { answers: answers.clone(), used: 0 };
-                let p4ref: &mut PageTable = unsafe { &mut *pool.frame_ptr(0) };
-                let poolptr: *mut Pool = pool;
-                let mut diff = || unsafe { (*poolptr).diff() };
-                let obs = if kind == 0 {
-                    let mapping = PoolMapping { base: pool.base, slot_of: pool.slot_of.clone(), foreign_slot: npool - 1 };
-                    let mut m = unsafe { MappedPageTable::new(p4ref, mapping) };
-                    observe(&mut m, &op, &mut alloc, &probes, &mut diff)
-                } else {
-                    let offset = VirtAddr::new(pool.base as u64 - base_phys);
-                    let mut m = unsafe { OffsetPageTable::new(p4ref, offset) };
-                    observe(&mut m, &op, &mut alloc, &probes, &mut diff)
-                };
-                let mut args = vec![op.opcode, op.szc, op.page, op.frame, op.flags, op.pflags, 3];
-                for a in &answers {
-                    args.push(a.unwrap_or(0));
+                let mut probes = gen_probes(&mut rng, &op, &hist);
+                if let MapperKind::Recursive(r) = env.kind {
+                    probes.retain(|&va| p4_index(va) != r);
                 }
-                args.push(probes.len() as u64);
-                args.extend_from_slice(&probes);
-                out.emit("mh_op", &args, &obs, true);
+                env.step(out, &op, &answers, &probes);
             }
             _ => panic!("bad corpus line: {}", line),
         }
